@@ -46,4 +46,39 @@ Failed(m, t, sps, w, obs) ==
     (IF \A i \in DOMAIN obs : C18_Live(m, t, sps, ObsEffect(obs[i])) THEN {} ELSE {"C18_Live"}) \cup
     (IF C18_Det(obs) THEN {} ELSE {"C18_Det"}) \cup
     (IF \A i \in DOMAIN obs : obs[i].panic = "" THEN {} ELSE {"C18_Crash"})
+
+(***************************************************************************)
+(* Histories: several requests served one after the other by ONE server    *)
+(* instance.  Each request is judged exactly as a single request, and      *)
+(* "the decision for a given method and path is deterministic" means: it   *)
+(* is the decision the same request gets as the first request of a fresh   *)
+(* instance (ref[i]), whatever was served before.                          *)
+(***************************************************************************)
+FailedHist(w, reqs, obs, ref) ==
+    (IF \A i \in DOMAIN obs : C18_Gate(w, ObsEffect(obs[i])) THEN {} ELSE {"C18_Gate"}) \cup
+    (IF \A i \in DOMAIN obs : C18_Live(reqs[i].m, reqs[i].t, reqs[i].sps, ObsEffect(obs[i])) THEN {} ELSE {"C18_Live"}) \cup
+    (IF \A i \in DOMAIN obs : Same(obs[i], ref[i]) THEN {} ELSE {"C18_Det"}) \cup
+    (IF \A i \in DOMAIN obs : obs[i].panic = "" THEN {} ELSE {"C18_Crash"})
+
+(***************************************************************************)
+(* Concurrency: two kinds of request hammered at ONE server instance at    *)
+(* the same time.  obs[i] = the distinct (status, body key, pong) answers  *)
+(* request kind i got; eff = the effects seen on the instance's shutdown / *)
+(* trigger channels and database connection meanwhile (they cannot be      *)
+(* attributed to one request, and need not be: with write operations       *)
+(* disabled no request may cause them).  "Reached" for a read-only kind =  *)
+(* never an answer of a stage in front of the handlers.                    *)
+(***************************************************************************)
+FailedConc(w, reqs, obs, eff) ==
+    (IF /\ \A k \in DOMAIN eff : C18_Gate(w, eff[k])
+        /\ \A i \in DOMAIN obs : \A j \in DOMAIN obs[i] : obs[i][j].effect # "None" => C18_Gate(w, obs[i][j].effect)
+     THEN {} ELSE {"C18_Gate"}) \cup
+    (IF \A i \in DOMAIN obs : \A o \in Range(DocOps) :
+            (o.marked /\ o.conc /\ reqs[i].sps = <<"exact">> /\ reqs[i].t = o.path /\ reqs[i].m = o.method)
+              => \A j \in DOMAIN obs[i] : <<obs[i][j].status, obs[i][j].bk>> \notin RejectSigs
+     THEN {} ELSE {"C18_Live"}) \cup
+    (IF \A i \in DOMAIN obs : \A j, k \in DOMAIN obs[i] :
+            obs[i][j].status = obs[i][k].status /\ obs[i][j].bk = obs[i][k].bk
+     THEN {} ELSE {"C18_Det"}) \cup
+    (IF \A i \in DOMAIN obs : \A j \in DOMAIN obs[i] : obs[i][j].panic = "" THEN {} ELSE {"C18_Crash"})
 =============================================================================
